@@ -325,9 +325,29 @@ def role_radii(ctx):
                     and len(st.targets[0].elts) == 3):
                 continue
             names = [norm_text(e) for e in st.targets[0].elts]
-            for out_i, want, label in ((0, 0, 'north radius'), (2, 1, 'parallel radius'),
-                                       (1, None, 'east principal radius')):
-                nm = names[out_i]
+            # other names for the three outputs: plain re-bindings `a = rn` / `a, b = rn, rp`
+            alias = {nm_: [nm_] for nm_ in names if nm_ != '_'}
+            for _ in range(3):
+                for s2 in ast.walk(f.node):
+                    if not (isinstance(s2, ast.Assign) and len(s2.targets) == 1):
+                        continue
+                    pairs_ = []
+                    if isinstance(s2.targets[0], ast.Name) and isinstance(s2.value, ast.Name):
+                        pairs_ = [(s2.targets[0].id, s2.value.id)]
+                    elif isinstance(s2.targets[0], ast.Tuple) and isinstance(s2.value, ast.Tuple) \
+                            and len(s2.targets[0].elts) == len(s2.value.elts):
+                        pairs_ = [(a_.id, b_.id) for a_, b_ in zip(s2.targets[0].elts,
+                                                                   s2.value.elts)
+                                  if isinstance(a_, ast.Name) and isinstance(b_, ast.Name)]
+                    for a_, b_ in pairs_:
+                        for root, al in alias.items():
+                            if b_ in al and a_ not in al:
+                                al.append(a_)
+            for out_i, want, label, nm in [(o_, w_, l_, a_)
+                                           for o_, w_, l_ in ((0, 0, 'north radius'),
+                                                              (2, 1, 'parallel radius'),
+                                                              (1, None, 'east principal radius'))
+                                           for a_ in alias.get(names[o_], [])]:
                 if nm == '_':
                     continue
                 if want is None and f.name == 'lla_to_ecef':
